@@ -24,10 +24,13 @@ T = {
          "every window of the root map selects nobody, and then - trace theorem on the cycle-exact machine - nothing is ever acknowledged, "
          "no SRAM sees cyc or changes, no register is read-strobed. Tied by running every root address (read and write) of generated real "
          "hierarchies against the model, and by an oracle against the real root.memory_map.decode_address()/all_resources()/find_resource().",
-         "Partial in one respect: for a Wishbone root the cycle-exact counterpart of reach (which leaf is strobed in which cycle of a transfer "
-         "through a bridge) is proved per component (C07, C10, C15, C04/C05, and C10's bridge-over-multiplexer composition) but not composed "
-         "over the whole-hierarchy machine; only the unselected case is proved at machine level there. It is checked per address by the "
-         "correspondence. Arbitrary user glue between components is outside the grammar; the acknowledge clause is read as in DESIGN §5 C01.",
+         "Cycle-exact composition over the whole-hierarchy machine is proved for held transfers (C01_wb_sram_transfer, C01_wb_bridge_transfer, "
+         "..._strobes, ..._read_atomic, ..._write_atomic, C01_wb_decode_selects*): which subordinate sees cyc, which register is strobed in which "
+         "cycle, single acknowledge, nothing else touched. Left open (recorded in Properties/C01.v): translation of whole ResourceInfo records from "
+         "the root map to a bridge's own tree map in the cycle-exact statements (address translation is proved), data clauses for registers spanning "
+         "several Wishbone words (covered by C06's tree theorems on the bridge's CSR trace), requests that change mid-transfer, windows outside the "
+         "domain (sparse with finer granularity, ratio > 1). Arbitrary user glue between components is outside the grammar; the acknowledge clause is "
+         "read as in DESIGN §5 C01.",
          "machine-checked proof in Coq (composition of the component theorems by induction over the hierarchy) + correspondence on real hierarchies"),
  "C02": ("proof", "DESIGN.md §5 C02", "memmap",
          "Coq theorems over a structure-mirroring model of memory.py for every reachable world (any finite history of add_resource/"
